@@ -856,7 +856,7 @@ pub fn c01_random_prop(model: &Model, ex: &Exec, tape: &[u32], st: &mut Stats) -
 use vcore::ast::ArgVal;
 use vcore::gen::Item;
 use vcore::lits::{expect, satisfies, Expect};
-use vcore::lits_c03::gen_c03_lit;
+use vcore::lits_c03::gen_c03_lit_nl;
 use vcore::spec::ALL_TYS;
 
 pub fn c03_nontrivial_class(class: &str) -> bool {
@@ -871,6 +871,7 @@ pub fn c03_nontrivial_class(class: &str) -> bool {
         || class.contains("real-number")
         || class.contains("other")
         || class.contains("spelled zero")
+        || class.contains("newline")
 }
 
 /// C03 through the real parser and dispatcher: one command of `sigs`, one generated literal per
@@ -885,9 +886,14 @@ pub fn c03_sig_prop(model: &Model, ex: &Exec, sigs: &[usize], tape: &[u32], st: 
     let supplied = if t.chance(1, 8) { t.below(13) } else { declared };
     let mut lits: Vec<Lit> = Vec::new();
     let mut classes: Vec<&'static str> = Vec::new();
+    // A newline inside a string or block is data. It is generated only when the parser itself cannot
+    // find a fault in the message (at most MAX_ARGS parameters; every generated literal is well-formed
+    // program data): after a parser-level fault the library discards up to the next newline, and a
+    // newline inside a payload would then legitimately start a "new message".
+    let newlines = supplied <= 10;
     for i in 0..supplied {
         let ty = if i < declared { d.params[i] } else { ALL_TYS[t.below(ALL_TYS.len())] };
-        let (l, c) = gen_c03_lit(&mut t, ty);
+        let (l, c) = gen_c03_lit_nl(&mut t, ty, newlines);
         lits.push(l);
         classes.push(c);
     }
@@ -1144,3 +1150,238 @@ pub fn c12_unit_prop(
     Ok(())
 }
 
+
+
+// -------------------------------------------------------------------------------------------------
+// C11 (lexical variants; generic over the interface so that generated declaration sets are covered)
+// -------------------------------------------------------------------------------------------------
+
+use vcore::ast::Ws;
+use vcore::runner::hash_of;
+
+fn c11_observe(ex: &Exec, env: &Env, stream: &[u8]) -> (Vec<Item>, String) {
+    let out = (ex.run_rec)(env, &[], stream);
+    (gen::items(&out.log), show_log(&out.log))
+}
+
+fn c11_observe_process(ex: &Exec, env: &Env, stream: &[u8]) -> (Vec<Ev>, Vec<u8>) {
+    // a read schedule derived from the bytes themselves (single bytes, pairs, or everything at once):
+    // variations that only show at a read boundary are then visible too
+    let reads: Vec<usize> = match hash_of(stream) % 4 {
+        0 => vec![],
+        1 => vec![1; stream.len()],
+        2 => vec![2; stream.len()],
+        _ => (0..stream.len()).map(|i| 1 + (hash_of(&(stream, i)) % 5) as usize).collect(),
+    };
+    let po = (ex.process)(env, 1024, &[], stream, &reads);
+    crate::observation(&po.log, &[])
+}
+
+/// Base message: canonical spelling (upper case as chosen by the generator, single blanks, LF),
+/// valid units plus execution-type faults.
+pub fn c11_gen_base(t: &mut Tape, model: &Model, ix: &Index, env: &mut Env) -> Message {
+    let mut cfg = GenCfg::default();
+    cfg.lexical = false;
+    cfg.max_units = 4;
+    cfg.lit.max_payload = 4;
+    cfg.p_empty_message = 0;
+    let failing: Vec<usize> = if t.chance(1, 3) {
+        let id = t.below(model.spec.decls.len());
+        env.fail[id] = Some(FailSpec::Custom(-(t.below(300) as i16) - 1, t.below(8)));
+        vec![id]
+    }
+    else {
+        vec![]
+    };
+    let n = t.range(1, 4);
+    let mut units: Vec<Unit> = Vec::new();
+    let mut ctx: Vec<String> = Vec::new();
+    for _ in 0..n {
+        let u = if t.chance(1, 5) {
+            let fault = [Fault::Arity, Fault::Kind, Fault::Range, Fault::NotBool, Fault::UndefSoft, Fault::UndefHard][t.below(6)];
+            match gen_faulty_unit(t, model, ix, &ctx, &cfg, fault, &failing) {
+                Some((u, _)) => u,
+                None => gen::gen_unit(t, ix, &ctx, &cfg),
+            }
+        }
+        else {
+            gen::gen_unit(t, ix, &ctx, &cfg)
+        };
+        if let Some(c) = model.resolve(&ctx, &u.header).new_ctx {
+            ctx = c;
+        }
+        units.push(u);
+    }
+    let mut m = Message::new(units);
+    m.trailing_semicolon = t.chance(1, 8);
+    m
+}
+
+/// Other spellings (short/long form) of mnemonic `i` of `u` that select the same node.
+fn c11_alternatives(model: &Model, ctx: &[String], u: &Unit, i: usize) -> Vec<String> {
+    let base = model.resolve(ctx, &u.header);
+    let Some(target) = base.target else { return vec![] };
+    let mut full: Vec<String> = if u.header.absolute || u.header.is_common() { vec![] } else { ctx.to_vec() };
+    let offset = full.len();
+    full.extend(u.header.mnems.iter().map(|m| m.to_ascii_uppercase()));
+    let mut out = Vec::new();
+    for ((path, query), tg) in &model.dict {
+        if *tg == target && *query == u.header.query && path.len() == full.len() {
+            let same_elsewhere = (0..path.len()).all(|k| k == offset + i || path[k] == full[k]);
+            if same_elsewhere && path[offset + i] != full[offset + i] {
+                out.push(path[offset + i].clone());
+            }
+        }
+    }
+    out
+}
+
+#[derive(Default)]
+pub struct C11Kinds {
+    pub case: bool,
+    pub form: bool,
+    pub ws: bool,
+    pub crlf: bool,
+    pub odd_ws: bool,
+}
+
+pub fn c11_gen_variant(t: &mut Tape, model: &Model, base: &Message, kinds: &mut C11Kinds) -> Message {
+    let mut v = base.clone();
+    let mut ctx: Vec<String> = Vec::new();
+    let mut vctx: Vec<String> = Vec::new();
+    for (ui, u) in base.units.iter().enumerate() {
+        let target = model.resolve(&ctx, &u.header).target;
+        let mut nu = u.clone();
+        if matches!(target, Some(Target::User(_)) | Some(Target::StdVersion) | Some(Target::ErrNext) | Some(Target::ErrCount)) {
+            for i in 0..u.header.mnems.len() {
+                if t.chance(1, 2) {
+                    let alts = c11_alternatives(model, &ctx, u, i);
+                    if !alts.is_empty() {
+                        let mut cand = nu.clone();
+                        cand.header.mnems[i] = alts[t.below(alts.len())].clone();
+                        if model.resolve(&vctx, &cand.header).target == target {
+                            nu = cand;
+                            kinds.form = true;
+                        }
+                    }
+                }
+            }
+        }
+        for m in nu.header.mnems.iter_mut() {
+            let spelled = gen::spell(t, &m.to_ascii_uppercase(), true);
+            if spelled != *m {
+                kinds.case = true;
+            }
+            *m = spelled;
+        }
+        let ws = gen::gen_ws_slots(t, true);
+        if ws != Ws::default() {
+            kinds.ws = true;
+            let all: Vec<u8> = [&ws.before[..], &ws.gap, &ws.before_comma, &ws.after_comma, &ws.end].concat();
+            if all.iter().any(|b| !matches!(b, b' ' | b'\t' | b'\r')) {
+                kinds.odd_ws = true;
+            }
+        }
+        nu.ws = ws;
+        if let Some(c) = model.resolve(&ctx, &u.header).new_ctx {
+            ctx = c;
+        }
+        if let Some(c) = model.resolve(&vctx, &nu.header).new_ctx {
+            vctx = c;
+        }
+        v.units[ui] = nu;
+    }
+    if v.trailing_semicolon || v.units.is_empty() {
+        v.tail_ws = gen::gen_ws(t, true, 0);
+    }
+    v.crlf = t.chance(1, 2);
+    kinds.crlf = v.crlf;
+    v
+}
+
+pub fn c11_compare(ex: &Exec, env: &Env, base: &Message, variant: &Message) -> Result<(), String> {
+    let b = base.rendered();
+    let v = variant.rendered();
+    let (ob, lb) = c11_observe(ex, env, &b);
+    let (ov, lv) = c11_observe(ex, env, &v);
+    if ob != ov {
+        return Err(format!(
+            "base '{}' and its lexical variant '{}' behave differently: [{}] vs [{}]",
+            esc(&b),
+            esc(&v),
+            lb,
+            lv
+        ));
+    }
+    if b.len() <= 1024 && v.len() <= 1024 {
+        let pb = c11_observe_process(ex, env, &b);
+        let pv = c11_observe_process(ex, env, &v);
+        if pb != pv {
+            return Err(format!(
+                "through process, base '{}' and its lexical variant '{}' behave differently",
+                esc(&b),
+                esc(&v)
+            ));
+        }
+    }
+    Ok(())
+}
+
+pub fn c11_random_prop(model: &Model, ix: &Index, ex: &Exec, tape: &[u32], st: &mut Stats) -> Result<(), String> {
+    let mut t = Tape::new(tape);
+    let mut env = Env::new(model, ex.qcap);
+    let base = c11_gen_base(&mut t, model, ix, &mut env);
+    for _ in 0..3 {
+        let mut kinds = C11Kinds::default();
+        let variant = c11_gen_variant(&mut t, model, &base, &mut kinds);
+        if !c11_same_resolution(model, &base, &variant) {
+            // A mnemonic that is the short form of two sibling nodes at once (XCd and XCf under one
+            // parent: the macro accepts such sets as long as no two handlers collide) stands for both
+            // nodes; writing one of them out changes the header path that later relative units see.
+            // That is not a meaning-preserving variation, so the reference model discards it.
+            st.class("variant discarded: exchanged form is ambiguous between sibling nodes");
+            continue;
+        }
+        c11_compare(ex, &env, &base, &variant)?;
+        st.evals_add(1);
+        let n = [kinds.case, kinds.form, kinds.ws, kinds.crlf].iter().filter(|b| **b).count();
+        if kinds.form {
+            st.class("short/long form exchanged");
+        }
+        if kinds.odd_ws {
+            st.class("white space other than blank/tab/CR");
+        }
+        if kinds.crlf {
+            st.class("CR LF terminator");
+        }
+        if n >= 2 || kinds.odd_ws {
+            st.nontrivial(&variant.rendered());
+        }
+        st.sample(|| json!({ "base": esc(&base.rendered()), "variant": esc(&variant.rendered()) }));
+    }
+    Ok(())
+}
+
+
+/// Do all units of `variant` select the same targets as the units of `base` according to the
+/// reference dictionary (walking the header path of each message separately)?
+fn c11_same_resolution(model: &Model, base: &Message, variant: &Message) -> bool {
+    let mut ctx: Vec<String> = Vec::new();
+    let mut vctx: Vec<String> = Vec::new();
+    for (u, v) in base.units.iter().zip(&variant.units) {
+        let rb = model.resolve(&ctx, &u.header);
+        let rv = model.resolve(&vctx, &v.header);
+        // node_exists: an undefined header is found by the parser (rest of the message discarded) or at
+        // execution (rest executed); both are allowed, but base and variant must be in the same case
+        if rb.target != rv.target || rb.node_exists != rv.node_exists {
+            return false;
+        }
+        if let Some(c) = rb.new_ctx {
+            ctx = c;
+        }
+        if let Some(c) = rv.new_ctx {
+            vctx = c;
+        }
+    }
+    true
+}
